@@ -110,6 +110,17 @@ def run(ctx):
         ctx.node_bad("R1", f, n, "timed_out is assigned something other than True inside the search")
     ctx.floor("R1", "sites setting timed_out", len(sets), 1)
     polls = [w for w in ast.walk(f.node) if isinstance(w, ast.While) and "time.time()" in U(w.test)]
+    # a polling loop that lives in a helper which cannot be expanded in place (it returns from inside the loop)
+    poll_helpers = []
+    if not polls:
+        for c in ast.walk(f.node):
+            if isinstance(c, ast.Call) and isinstance(c.func, ast.Attribute) and isinstance(c.func.value, ast.Name) and c.func.value.id == "self":
+                g = ctx.repo.funcs.get("KernelDG." + c.func.attr)
+                if g is not None and any(isinstance(x, ast.While) and ("time." in U(x.test) or "is_alive" in U(x)) for x in ast.walk(g.node)):
+                    poll_helpers.append(g.qname)
+        if poll_helpers:
+            ctx.unknown("R1", "polling loop", f.where(), "the polling loop lives in %s, which returns from inside the loop and cannot be "
+                        "expanded in place: the time-out path of the parallel search is not recognised" % sorted(set(poll_helpers)))
     for n in sets:
         ok = False
         why = ""
@@ -124,6 +135,8 @@ def run(ctx):
             why = "under the deadline test `%s` (and timeout != -1)" % deadline[0]
         if ok:
             ctx.node_ok("R1", f, n, "timed_out = True on a cut-short path: " + why)
+        elif poll_helpers and any((not p) and any(h.split(".")[1] in t for h in poll_helpers) for t, p in facts):
+            ctx.unknown("R1", U(n), f.where(n), "timed_out is set where %s answered False" % sorted(set(poll_helpers)))
         else:
             ctx.node_bad("R1", f, n, "timed_out is set on a path that is not a time-out (facts: %s): the warning would "
                          "be shown although the search was complete" % [t for t, p in facts if p])
@@ -224,13 +237,14 @@ def run(ctx):
                 okk = True
                 ctx.node_ok("R3", f, k, "time-out path: live workers are killed (%s), then every worker is joined" % U(k)[:50])
     if okk is not None:
-        ctx.check(okk, "R3", "time-out path kills live workers before joining", f.where(w),
+        ctx.judge(okk, not poll_helpers, "R3", "time-out path kills live workers before joining", f.where(w),
                   "on the time-out path workers that are still alive are not killed before join(): the analysis would block "
                   "until they finish (no time-out) or leave them running", f.qname, "kill before join")
-    cp = [n for n, b in pm.find("M_a = list(M_a)", w)]
-    ok = len(cp) == 1 and cp[0] in w.body and all(cfg.reachable(l, cp[0]) and not cfg.reachable(cp[0], l) for l in jloops)
     shared = pm.find("M_a = M_m.list()", w)
-    ok = ok and bool(shared) and U(shared[0][1]["M_a"]) == U(cp[0].targets[0])
+    sname = U(shared[0][1]["M_a"]) if shared else "?"
+    cp = [n for n, b in pm.find("M_b = list(%s)" % sname, w)]
+    ok = len(cp) == 1 and cp[0] in w.body and all(cfg.reachable(l, cp[0]) and not cfg.reachable(cp[0], l) for l in jloops)
+    ok = ok and bool(shared)
     ctx.check(ok, "R4", "list(shared) is taken in the with-block after all joins", f.where(cp[0]) if cp else f.where(w),
               "the manager's list is not copied to a plain list inside the block after the joins (it is unusable once the "
               "manager is shut down, and unstable while workers append)", f.qname, "copy before teardown")
@@ -288,6 +302,9 @@ def run(ctx):
                   for k in p.keywords if k.arg == "target" and U(k.value).endswith("_extend_path")]
             direct = [x for q in ctx.repo.all_funcs() for x in C.calls_to(q.node, "_extend_path")]
             ok = bool(tg) and not direct and okk and bool(polls)
+            if not ok and poll_helpers and bool(tg) and not direct:
+                ctx.unknown("R6", U(c)[:80], fi.where(c), "worker control (poll and kill) is not recognised, see R1")
+                continue
             if ok:
                 ctx.node_ok("R6", fi, c, "runs only inside a worker process that the parent polls against the timeout and kills")
             else:
